@@ -16,4 +16,5 @@ PROPS = {
         level='proof',
         technique='contract-based deductive verification (Verus) of the verbatim-extracted BufferQueue / SmallCharSet code',
     ),
+    'C18': dict(verus=['u_trace'], level='proof', technique='contract-based deductive verification (Verus): trace_handles against a handle set generated from the struct definition'),
 }
